@@ -123,8 +123,12 @@ def _absent(res: Result, v: FuncView, rule, stmt, detail, why, where):
     _, opaque = v.effects()
     # local closures / lambdas: their bodies are separate functions - what they do on behalf of this one is not attributed to it
     nested = any(isinstance(n, (ast.FunctionDef, ast.AsyncFunctionDef, ast.Lambda)) and n is not v.fi.node for n in ast.walk(v.fi.node))
+    me = v.fi.params[0].arg if v.fi.params else None
+    handed = me is not None and any(isinstance(n, ast.Call) and any(isinstance(a_, ast.Name) and a_.id == me for a_ in list(n.args) + [k.value for k in n.keywords]) for n in ast.walk(v.fi.node))
     if nested:
         res.unknown(rule, v.fi.short, stmt, detail, "not found in the function body; it defines local closures whose effects are not attributed to it", where)
+    elif handed:
+        res.unknown(rule, v.fi.short, stmt, detail, f"not found in the function body; it hands `{me}` itself to another callable (a policy / strategy object) that may do it", where)
     elif opaque:
         res.unknown(rule, v.fi.short, stmt, detail, "not found, but the function mutates containers the analysis cannot attribute to a table", where)
     else:
@@ -1300,3 +1304,43 @@ def check_memo_keys(ctx, res: Result, cls: str, rule="K-MEMOKEY"):
                 res.ok(rule, fi.short, norm(n)[:120], f"{attr}:units", loc(fi, n))
     if n_checked == 0:
         res.ok(rule, cls, "no keyed cache on the object", "scan", ctx.prog.cls(cls).module.relpath)
+
+
+# ----------------------------------------------------------------------------- canonical order of a hyperedge's nodes
+def check_canon_key(ctx, res: Result, cls: str, rule="K-CANONORD"):
+    """The canonical key of a hyperedge is its nodes in their NATURAL order (`tuple(sorted(nodes))`): equal labels compare equal
+    whatever their type (1, 1.0, numpy.int64(1)), so the key is a function of the node set.  An ordering by a derived key
+    (type name, str / repr, hash) separates equal labels of different type: one node set gets two keys."""
+    res.rules.setdefault(rule, "hyperedges are canonicalised by the natural order of their nodes: no sort key derived from type / str / repr / hash of a label")
+    ci = ctx.prog.cls(cls)
+    mod = ci.module
+    # the canonicalisation helpers of the class's module (and what they call), and the methods that build record keys
+    seeds = [fi for fi in ctx.prog.functions.values() if fi.module is mod and fi.cls is None and fi.parent is None and ("canon" in fi.name or "sort" in fi.name or "key" in fi.name)]
+    seeds += [m for n_, m in ctx.methods(cls).items() if n_ in ("add_edge", "add_edges", "check_edge", "remove_edge", "get_weight", "set_weight", "get_edge_metadata", "set_edge_metadata")]
+    seen, todo = {}, list(seeds)
+    while todo:
+        fi = todo.pop()
+        if fi.qualname in seen:
+            continue
+        seen[fi.qualname] = fi
+        for n in walk_no_nested(fi.node):
+            if isinstance(n, ast.Call):
+                for c in ctx.callees(fi, n):
+                    if c.module is mod and c.cls is None and c.qualname not in seen:
+                        todo.append(c)
+    n_sorts = 0
+    for fi in seen.values():
+        for n in ast.walk(fi.node):
+            is_sort = isinstance(n, ast.Call) and ((isinstance(n.func, ast.Name) and n.func.id == "sorted") or (isinstance(n.func, ast.Attribute) and n.func.attr == "sort"))
+            if not is_sort:
+                continue
+            n_sorts += 1
+            key = next((k.value for k in n.keywords if k.arg == "key"), None)
+            if key is None:
+                res.ok(rule, fi.short, norm(n)[:100], "natural-order", loc(fi, n))
+                continue
+            txt = norm(key)
+            derived = any(isinstance(x, ast.Call) and isinstance(x.func, ast.Name) and x.func.id in ("type", "str", "repr", "hash", "id") for x in ast.walk(key)) or (isinstance(key, ast.Name) and key.id in ("str", "repr", "hash", "id", "type")) or "__name__" in txt or "__class__" in txt
+            res.add(rule, fi.short, norm(n)[:100], "natural-order", "violation" if derived else "unknown", f"the nodes of a hyperedge are ordered by `{txt[:60]}`, not by the labels themselves: equal labels of different type (1 and numpy.int64(1)) are placed differently, so the same node set gets two canonical keys (two records, weights not merged)" if derived else "sorted with a custom key", loc(fi, n))
+    if n_sorts == 0:
+        res.unknown(rule, cls, "tuple(sorted(edge))", "natural-order", "no sorting call found in the canonicalisation code of the class", mod.relpath)
